@@ -720,7 +720,7 @@ pub fn run(tier: Tier, seed: u64) -> i32 {
   }
   rep.floor("tamper_with_known_checksum", 100);
   rep.floor("checksum_mismatches_observed", 100);
-  let n = tier.pick(30000, 1500000);
+  let n = tier.pick(30000, 7500000);
   let acc = par_run(n, |i, acc| case(i, seed, acc));
   rep.finish(acc)
 }
